@@ -802,7 +802,7 @@ def _c19_describe(case):
 
 
 PROPS['C19'] = {
-    'lean_modules': ['KVerif.Props.C19', 'KVerif.Props.C19kan'],
+    'lean_modules': ['KVerif.Props.C19', 'KVerif.Props.C19kan', 'KVerif.Props.C19out'],
     'oracle_project': _c19_project,
     'nontrivial': _c19_nontrivial,
     'rule': 'unit level: every sequence of up to 3 (thorough: 5) calls over a 12-call alphabet, random sequences of 4-120 calls and structured record-then-replay sessions (nested plays, self-recursion attempts) of the dynamic_macro.rs functions (limits 0,1,2,3,5,128; both delay behaviours); end to end on the real Kanata: record/type/stop/replay scenarios with markers (keys held across start and stop, truncation 0-3 and beyond, limit exceeded, nested play, replay twice, typing during replay; plain-key and tap-hold configurations), random histories over plain, record, play, stop and multi keys including physically inconsistent ones, tick_ms with ms_elapsed of 65535..140000 during a replay with recorded delays of up to 65535, and three crash-shaped histories (two multi keys, one with plain keys only); non-trivial = a macro was stored or a replay fed an event; distinct = distinct case line',
@@ -1608,6 +1608,27 @@ def _c15_project(out):
     return re.sub(r' tsi=\d+', '', out)
 
 
+def _c15_failed_request_moved_index(case, impl, spec):
+    """[t7:in-use] known-finding predicate: somewhere in the implementation trace a reload FAILS while the
+    file index points away from the file whose configuration is running (rqN moves the index at request
+    time, only `ok` makes that file the one in use)."""
+    if not case.startswith('C15 S '):
+        return False
+    in_use = idx = 0
+    for tok in impl.split(' | ')[0].split(' '):
+        t = tok.split(':', 1)[-1]
+        m = re.fullmatch(r'rq(\d+)', t)
+        if m:
+            idx = int(m.group(1))
+        elif t == 'ok':
+            in_use = idx
+        elif t == 'fail':
+            if idx != in_use:
+                return True
+            idx = idx  # the pinned code leaves the index where the request put it
+    return False
+
+
 def _c15_nontrivial(case, impl):
     if case.startswith('C15 R'):
         return True
@@ -1684,7 +1705,8 @@ PROPS['C15'] = {
     'lean_modules': ['KVerif.Props.C15', 'KVerif.Props.C15fresh'],
     'oracle_project': _c15_project,
     'nontrivial': _c15_nontrivial,
-    'rule': 'simple-fragment traces through the real processing-loop shape under virtual time (exhaustive families: every reload action from every position with 1-3 files; 6 kinds of new content x 7 kinds of held state at the request; back-to-back requests; then random scripts over random 1-4 file sets with files rewritten mid-run) compared token by token with the Lean model (impl = model) and with the restart specification (impl = spec); plus relational cases on rich configurations (22 histories x 5 content kinds x 3 new configurations, random continuations): failed reload vs no request, successful reload vs fresh instance; non-trivial = a reload was attempted (trace cases) / always (relational); distinct = distinct case line',
+    'known_preds': {'failed_request_moved_index': _c15_failed_request_moved_index},  # [t7:in-use]
+    'rule': 'simple-fragment traces through the real processing-loop shape under virtual time (exhaustive families: every reload action from every position with 1-3 files; 6 kinds of new content x 7 kinds of held state at the request; back-to-back requests; then random scripts over random 1-4 file sets with files rewritten mid-run) compared token by token with the Lean model (impl = model) and with the restart specification (impl = spec; on the specification side a failed reload also puts the file index back on the file whose configuration is running - family F-idx: 2-3 files, file 1 broken in four ways, lrld-next/prev/num/file onto it, then lrld / lrld-next / lrld-prev / lrld-num); plus relational cases on rich configurations (22 histories x 5 content kinds x 3 new configurations, random continuations): failed reload vs no request, successful reload vs fresh instance; non-trivial = a reload was attempted (trace cases) / always (relational); distinct = distinct case line',
     'stats': _c15_stats,
     'shrink_candidates': _c15_shrink,
     'describe': _c15_describe,
